@@ -10,9 +10,16 @@ open Generated
 
 /-! ### Programs -/
 
+/-- element of an attribute path in a call parameter: `a` in `x.a`, or an array index `[i]` / `[0]` / `[]` -/
+inductive Seg where
+  | name (a : String)
+  | idx (v : String)          -- `[v]` as written: a counting variable, a literal index, or empty
+  | idxNum (k : Nat)          -- `[k]`: a counting variable resolved to the iteration number
+deriving Repr, Inhabited, DecidableEq
+
 inductive Param where
   | var (x : String)
-  | path (p : List String)
+  | path (p : List Seg)
   | lit (struct : String) (v : Val)
 deriving Repr, Inhabited
 
@@ -132,14 +139,13 @@ def St.flush (s : St) (h : Nat) : St :=
   let n := s.pend.length - h
   { s with out := s.out ++ (s.pend.take n).flatMap (fun p => [Ev.ret p.1, Ev.late p.2]), pend := s.pend.drop n }
 
-/-- `substitute_loop_indexes`: an element `[i]` of an attribute path becomes `[k]` -/
-def substSeg (binds : List (String × Nat)) (seg : String) : String :=
-  if seg.startsWith "[" && seg.endsWith "]" then
-    let v := (seg.replace "[" "").replace "]" ""
-    match binds.lookup v with
-    | some k => "[" ++ toString k ++ "]"
-    | none => seg
-  else seg
+/-- `substitute_loop_indexes`: an element `[i]` of an attribute path becomes `[k]`; only elements written
+    as an array index are touched -/
+def substSeg (binds : List (String × Nat)) : Seg → Seg
+  | .idx v => match binds.lookup v with
+    | some k => .idxNum k
+    | none => .idx v
+  | seg => seg
 
 def substParam (binds : List (String × Nat)) : Param → Param
   | .path p => .path (p.map (substSeg binds))
